@@ -1096,3 +1096,85 @@ func c15locks(c *an.Ctx) {
 	}
 	c.OK(nil, "DB lock self-nesting scanned", token.NoPos, "")
 }
+
+func init() {
+	reg("C05.window", "PATH+LOCK", "a Channel method that has taken a message out of a container does not wait for Channel.exit() (exitMutex) before the message is back in one", 3, c05window)
+	reg("C01.window", "PATH+LOCK", "custody is not held across a wait for the channel's shutdown (shared with C05.window)", 3, c05window)
+}
+
+// c05window: Channel.exit() holds exitMutex from setting the exit flag until its flush is done, and the flush persists
+// what it finds in the containers. A method that has removed a message from a container (it now lives only in a local
+// variable) and then acquires exitMutex waits for exactly that flush to finish – the message is in no container while
+// the flush runs and is lost by a graceful restart. The exit check must come before the removal.
+func c05window(c *an.Ctx) {
+	popIn := c.Fn("nsqd", "(*Channel).popInFlightMessage")
+	popDef := c.Fn("nsqd", "(*Channel).popDeferredMessage")
+	put := c.Fn("nsqd", "(*Channel).put")
+	if popIn == nil || popDef == nil || put == nil {
+		return
+	}
+	var reinserts []*ssa.Function
+	for _, n := range []string{"(*Channel).put", "(*Channel).PutMessage", "(*Channel).StartDeferredTimeout", "(*Channel).StartInFlightTimeout", "(*Channel).pushInFlightMessage", "(*Channel).pushDeferredMessage"} {
+		if f := c.P.Func("nsqd", n); f != nil {
+			reinserts = append(reinserts, f)
+		}
+	}
+	la := c.P.Locks()
+	n := 0
+	for _, fn := range c.P.PkgFuncs("nsqd") {
+		if fn == popIn || fn == popDef {
+			continue
+		}
+		var start []an.Edge
+		for _, pc := range an.CallsTo(fn, popIn, popDef) {
+			s, _ := an.ErrEdges(pc.Value())
+			start = append(start, s...)
+		}
+		if len(start) == 0 {
+			continue
+		}
+		// only methods that put the message back somewhere (FIN does not)
+		back := false
+		for _, r := range reinserts {
+			if len(an.CallsTo(fn, r)) > 0 {
+				back = true
+			}
+		}
+		if !back {
+			continue
+		}
+		n++
+		q := &an.PathQ{Fn: fn, StartEdges: start,
+			Sink: func(in ssa.Instruction, _ *an.PathState) bool {
+				call, ok := in.(*ssa.Call)
+				if !ok || !(an.StdCallee(call, "sync", "(*RWMutex).RLock") || an.StdCallee(call, "sync", "(*RWMutex).Lock")) {
+					return false
+				}
+				fl := la.Fns[fn]
+				if fl == nil {
+					return false
+				}
+				for _, o := range fl.Ops {
+					if o.Instr == in && o.Class == "Channel.exitMutex" {
+						return true
+					}
+				}
+				return false
+			},
+			Cut: func(in ssa.Instruction, _ *an.PathState) bool {
+				for _, r := range reinserts {
+					if isCallToOn(in, r, nil) {
+						return true
+					}
+				}
+				return false
+			}}
+		w, f := q.Find()
+		if f {
+			c.Bad(fn, "no wait for shutdown while holding a removed message", fn.Pos(), an.FnName(fn)+" removes a message from the in-flight/deferred set and then acquires exitMutex: if Channel.exit() is in progress it waits until the flush is over, the flush never sees the message, and a graceful restart loses it", w)
+		} else {
+			c.OK(fn, "no wait for shutdown while holding a removed message", fn.Pos(), "")
+		}
+	}
+	c.Check(n >= 3, nil, "pop-and-reinsert methods located", token.NoPos, "", sprintf("expected RequeueMessage, TouchMessage and the two scans, found %d", n))
+}
